@@ -35,7 +35,7 @@ PROBES = ["chain_depth_3", "chain_depth_4", "child_export", "child_export_of_bas
           "unfiltered_export", "box_filter", "map_superset", "map_permutation", "map_crosses_chunk", "two_basins", "two_basins_shared_map",
           "internal_basin", "explicit_mapname", "basin_feats_restricted", "precedence_checked", "moved_together",
           "moved_ref_only", "abs_location_still_resolves", "origin_deleted", "origin_renamed", "origin_replaced",
-          "unavailable_confirmed", "tool_copy", "ambiguous_candidates", "asarray_twice", "nonscalar_through_mapped",
+          "unavailable_confirmed", "tool_copy", "ambiguous_candidates", "asarray_twice", "dtype_first_read", "nonscalar_through_mapped",
           "available_after_move_together"]
 COMPONENTS = {
     "real": ["dclab RTDCWriter.store_basin", "dclab export.hdf5 (basins branch)", "RTDC_HDF5 / RTDC_Hierarchy readers, basins_retrieve, "
@@ -71,7 +71,7 @@ TRACES = ["fl1_median", "fl1_raw"]
 NDIRS = 3
 MAX_FILES = 14
 MAX_EVENTS = 120
-ACCESS = ["int", "negint", "slice", "slice_step", "boolmask", "intarray", "full", "asarray2", "len"]
+ACCESS = ["int", "negint", "slice", "slice_step", "boolmask", "intarray", "full", "asarray2", "len", "dtype_first"]
 
 
 def plan(tier):
@@ -1151,6 +1151,8 @@ class World:
             index = np.sort(rs.choice(n, size=k, replace=False))
         else:
             index = slice(None)
+        if acc == "dtype_first" and fkind(f) != "scalar":
+            acc = "full"     # a lossy dtype on first access only makes sense for scalar features
         twice = (0, 1)
         if acc == "asarray2" and n ** self.mapped_levels(F, f) > 20000:
             # the repeated conversion costs n**levels element reads in dclab: one conversion only
@@ -1171,6 +1173,12 @@ class World:
                 for nm, o in objs.items():
                     if acc == "len":
                         out[nm] = len(o)
+                    elif acc == "dtype_first":
+                        # the first whole-array read asks for a lossy dtype, the second is a plain read
+                        if fkind(f) == "scalar":
+                            out[nm] = [np.asarray(o, dtype=np.int64).astype(np.float64), np.array(np.asarray(o))]
+                        else:
+                            out[nm] = [np.asarray(o[index])]
                     elif acc == "asarray2":
                         if f == "contour":
                             out[nm] = [[np.asarray(o[i]) for i in range(n)] for _ in twice]
@@ -1224,7 +1232,16 @@ class World:
                         return np.shape(g) == e.shape[1:] and bool(np.array_equal(g, e[0]))
                     return equal("pos_x", g, e)
 
-                if f == "trace":
+                if acc == "dtype_first":
+                    if fkind(f) == "scalar":
+                        ctx.probe("dtype_first_read")
+                        good = (np.array_equal(got[""][0], np.asarray(exp).astype(np.int64).astype(np.float64))
+                                and cmp(got[""][1], exp))
+                    elif f == "trace":
+                        good = all(cmp(got[nm][0], exp[nm]) for nm in TRACES)
+                    else:
+                        good = cmp(got[""][0], exp)
+                elif f == "trace":
                     good = all((all(cmp(x, exp[nm]) for x in got[nm]) if acc == "asarray2" else cmp(got[nm], exp[nm])) for nm in TRACES)
                 else:
                     good = all(cmp(x, exp) for x in got[""]) if acc == "asarray2" else cmp(got[""], exp)
